@@ -17,10 +17,10 @@ CHECKS = {
  "C04": ("fault_enumeration", "fault enumeration (every byte of every chunk on scaled constants; chunk swap/dup/delete; truncation inside chunks) over generated encrypted archives incl. adversarial record/chunk alignments, judged by a metamorphic relation between authenticated repair, unauthenticated repair and repair of the intact prefix",
          "For every fault with first damaged chunk j, authenticated repair A of the damaged archive must output only prefixes of original files, nothing that the intact archive cut after j chunks does not already yield (so nothing decoded at or after the failed chunk is used), and must be a prefix of the unauthenticated repair U of the same damaged archive. Layouts where a content record of an open file ends exactly on a chunk edge and a complete file follows are generated on purpose (the shape that hides a swallowed authentication failure).",
          "Faults whose first damaged chunk is chunk 0 are excluded by construction and reported as the open finding chunk0-loaded-unauthenticated; T_j relies on unauthenticated repair being complete (C05).", "DESIGN.md section 4 C04"),
- "C05": ("fault_enumeration", "model-based completeness and monotonicity check of repair over generated intact archives and all their prefixes",
+ "C05": ("fault_enumeration", "model-based completeness and monotonicity check of repair over generated intact archives and all their prefixes, plus intact archives encoded by the independent implementation (empty blocks, foreign brotli parameters) and content blocks sized at multiples of the repair buffer",
          "Intact generated archives (compressed streams crossing 0..n block boundaries, all levels and entropies, flushes and piece ends on block edges) must repair completely with the end-of-data status; over the ordered truncation lengths no file may shrink; without compression the recovered bytes must equal the bytes whose records lie in the usable part of the stream computed from the model layout.",
          "Usable-bytes computation trusts the record sizes of FORMAT.md and the chunk geometry; production prefixes are windows, not all lengths.", "DESIGN.md section 4 C05"),
- "C06": ("exploration", "differential property test against an independent implementation of FORMAT.md, both directions, plus incremental AES-GCM vs the aes-gcm crate over generated message splits",
+ "C06": ("exploration", "differential property test against an independent implementation of FORMAT.md, both directions, plus incremental AES-GCM vs the aes-gcm crate over generated message splits, plus archives of more than 2^8 (both flavours) and 2^16 (scaled) chunks in both directions",
          "Archives written by the library are decoded by refimpl (written from FORMAT.md only: header, ECIES wrap, nonce||BE32(i) chunks, brotli blocks + sizes footer, typed records, end marker, index) and must yield the model's files and the documented structure; archives encoded by refimpl with free parameters must be read identically by the library; the cipher core must equal standard AES-256-GCM for every split. A symmetric change of writer and reader is caught because the other side is independent.",
          "Trusts refimpl (self-test pins it to every number FORMAT.md prints for samples/archive_v1.mla) and the aes-gcm, hkdf, sha2, x25519-dalek, brotli crates as primitives.", "DESIGN.md section 4 C06"),
  "C07": ("exploration", "property tests with statistical and search oracles: repeated creation in-process and across worker processes (pairwise distinctness, per-bit balance), marker search over generated encrypted archives, generated recipient sets x candidate key lists",
@@ -35,7 +35,7 @@ CHECKS = {
  "C10": ("exploration", "stateful property test: generated operation histories on one reader, differential against a fresh reader per file",
          "Histories of list / open (any order, repeated) / reads with buffer sizes 0, 1, primes, larger than the file / abandon midway / get_hash on a single ArchiveReader must return, at every step, exactly what a fresh reader reading only that file returns. Targets state shared between operations (cached chunk, open decompressor, position counters, run index).",
          "Baseline is the library's own fresh reader (as the property states); its agreement with the written data is C01's claim.", "DESIGN.md section 4 C10"),
- "C12": ("exploration", "differential property test (linear_extract vs get_file) over generated interleaved archives, subsets and throttled/interrupting sinks, plus refimpl-built negative archives without end marker / cut mid-record",
+ "C12": ("exploration", "differential property test (linear_extract vs get_file) over generated interleaved archives, subsets and throttled/interrupting sinks, plus refimpl-built negative archives without end marker / cut mid-record, plus `mlar extract` (linear path, its own destination-file pool) on library-written archives of up to 1100 interleaved files",
          "Each chosen sink must receive exactly the bytes per-file extraction returns, absent names nothing; archives whose block stream lacks the end-of-data marker or is cut inside a record (valid index appended so that they open) must make linear_extract fail.",
          "Negative cases that by accident still parse to a marker byte under an independent record parser are excluded and counted.", "DESIGN.md section 4 C12"),
  "C13": ("exploration", "differential property test over generated transfer schedules: throttled / interrupting sinks for the writer, throttled Read+Seek and Read sources for the reader and for repair, compared with in-memory transfers",
@@ -47,7 +47,7 @@ CHECKS = {
  "C11": ("exploration", "differential property test against io::Cursor over refimpl-encoded layer streams (exhaustive length sweep on scaled constants + random seek/read histories)",
          "Layer streams of every plaintext length (every residue modulo chunk and block on the scaled build, boundary windows on the production build) are encoded by an independent implementation of the format; the library's layer readers, stacked as mlar does, must return the same positions and bytes as an in-memory cursor for generated seek/read histories within [0, L].",
          "Trusts refimpl (anchored to FORMAT.md by a self-test on samples/archive_v1.mla), the aes-gcm / brotli / x25519-dalek / hkdf crates.", "DESIGN.md section 4 C11"),
- "C15": ("exploration", "metamorphic measurement with a counting global allocator: generated (operation, layers, level, entropy, piece size, file count, interleaving) cases run at two data sizes (and two file counts) in dedicated worker processes",
+ "C15": ("exploration", "metamorphic measurement with a counting global allocator: generated (operation, layers, level, entropy, piece size, file count, interleaving) cases run at two data sizes (and two file counts) in dedicated worker processes; peak resident set of the mlar process (wait4) for six CLI scenarios at two data sizes",
          "Peak live heap while writing, repairing and linearly extracting S and k*S bytes streamed from a generator into a counting sink must stay under 96 MiB and must not grow with the bytes streamed (peak(k*S) <= 1.25 peak(S) + 4 MiB); multiplying the number of files by 4 may cost at most 2 KiB per additional file.",
          "Quick tier compares 8 MiB with 64 MiB, thorough 64 MiB with 1 GiB; only heap allocations through the global allocator are seen.", "DESIGN.md section 4 C15"),
  "C16": ("exploration", "CLI property test in a snapshotted sandbox: generated member-name sets from a path grammar x extraction forms x output arguments, before/after filesystem snapshot as oracle",
@@ -56,7 +56,7 @@ CHECKS = {
  "C17": ("exploration", "CLI round-trip property test: generated file trees x layer/level/key options x create|convert|repair pipelines, every read-side command compared with the input files; negative runs with wrong / missing / superfluous keys",
          "With the `mlar` binary built from the tree, after create and after every convert / repair stage, list, list -vv (humansize DECIMAL size and SHA-256), cat, both forms of extract and to-tar (parsed with the tar crate) must give back exactly the generated files; wrong key, no key and a key for an archive without encryption must fail with a non-zero status and no output content on all six commands.",
          "Sizes are bounded (one ~4 MiB file per tree at most, brotli quality <= 7) to keep a pipeline under a second.", "DESIGN.md section 4 C17"),
- "C18": ("exploration", "round-trip and totality property test of curve25519-parser over generated seeds, PEM wrappings, concatenations and mutated / random DER and PEM bytes; libFuzzer target in the thorough tier",
+ "C18": ("exploration", "round-trip and totality property test of curve25519-parser over generated seeds, PEM wrappings, concatenations, mutated / random DER and PEM bytes and field-by-field generated PKCS#8 / SPKI structures with recomputed lengths; accepted inputs are checked against a structural envelope and inside PEM bundles; libFuzzer target in the thorough tier",
          "Generated X25519 pairs and harness-built Ed25519 pairs (SHA-512, clamp, base-point multiplication with curve25519-dalek) must parse in DER and PEM to a private key whose public key equals the parsed public key and the independently computed one; all PEM wrappings that are accepted must give the same key, the OpenSSL layout must be accepted, concatenated public keys keep their order; mutated and random inputs must never panic and, when accepted, must yield the key field a lenient TLV walk finds.",
          "Only the 64-column OpenSSL PEM layout is required to parse; stack overflow in the DER parser would kill the in-process check (none observed; the libFuzzer target runs in its own process).", "DESIGN.md section 4 C18"),
  "C19": ("exploration", "differential property test of the mlar binary against a harness re-implementation of the README algorithm (own ChaCha20 block function, HKDF-SHA512) over generated seeds, parent key forms and path lists",
